@@ -211,6 +211,8 @@ def mutated_exprs(stmts):
         def visit_Call(self, n):
             if isinstance(n.func, ast.Attribute) and n.func.attr in ("append", "extend", "update", "sort", "insert", "pop"):
                 out.append((n.func.attr, n.func.value))
+            if isinstance(n.func, ast.Attribute) and n.func.attr == "read":
+                out.append(("attr", n.func.value, "pos"))     # file objects: read() advances the position
             self.generic_visit(n)
 
         def visit_FunctionDef(self, n):
@@ -919,18 +921,32 @@ class Interp:
             if root is not None:
                 loops = [n for n in ast.walk(root) if isinstance(n, (ast.For, ast.While))]
                 loops.sort(key=lambda n: (n.lineno, n.col_offset))
+                cnt = {"for": 0, "while": 0}
+                self._loop_kind = {}
                 for i, n in enumerate(loops):
                     table[id(n)] = i
+                    k = "while" if isinstance(n, ast.While) else "for"
+                    self._loop_kind[i] = "%s:%d" % (k, cnt[k])
+                    cnt[k] += 1
         if id(node) in table:
             return table[id(node)]
         return -1 - self.loop_counter
+
+    def loop_invariant(self, ordinal):
+        """contracts may key a loop by its static ordinal or by 'while:<n>' / 'for:<n>' (n-th loop of that kind)"""
+        if self.tc is None:
+            return None
+        inv = self.tc.loops.get(ordinal)
+        if inv is None and ordinal >= 0:
+            inv = self.tc.loops.get(getattr(self, "_loop_kind", {}).get(ordinal))
+        return inv
 
     def s_While(self, node, env):
         ordinal = self.loop_ordinal(node)
         self.loop_counter += 1
         if node.orelse:
             self.err(node, "while/else")
-        inv = self.tc.loops.get(ordinal) if self.tc is not None else None
+        inv = self.loop_invariant(ordinal)
         if inv is None:
             # concrete unrolling (bounded by fuel); symbolic conditions need an invariant
             fuel = self.ctx.fuel
@@ -973,7 +989,7 @@ class Interp:
                 except _Continue:
                     continue
             return
-        inv = self.tc.loops.get(ordinal) if self.tc is not None else None
+        inv = self.loop_invariant(ordinal)
         n, getter = self.lib.symbolic_iter(self, it, node)
         if inv is None:
             if self.lib.try_summarize_loop(self, node, env, n, getter):
